@@ -149,6 +149,11 @@ func (c *websocketTransport) Read(b []byte) (n int, err error) {
 // out and return a Error with Timeout() == true after a fixed time limit by
 // using SetDeadline and SetWriteDeadline on the websocket.
 func (c *websocketTransport) Write(b []byte) (n int, err error) {
+	// 与流式连接一致：写 0 字节不产生任何输出，不能发出一个空的 WebSocket 消息
+	if len(b) == 0 {
+		return 0, nil
+	}
+
 	// Serialize write to avoid concurrent write
 	c.Lock()
 	defer c.Unlock()
@@ -225,6 +230,10 @@ type websocketTextTransport struct {
 // out and return a Error with Timeout() == true after a fixed time limit by
 // using SetDeadline and SetWriteDeadline on the websocket.
 func (c *websocketTextTransport) Write(b []byte) (n int, err error) {
+	if len(b) == 0 {
+		return 0, nil
+	}
+
 	// Serialize write to avoid concurrent write
 	c.Lock()
 	defer c.Unlock()
